@@ -460,25 +460,31 @@ func (m *Machine) structEq(a, b Str) (Bool, bool) {
 	if !ok1 || !ok2 {
 		return Bool{}, false
 	}
-	shape := func(p []strPart) (lit string, big string, ok bool) {
+	shape := func(p []strPart) (lit string, big string, hex bool, ok bool) {
 		switch {
 		case len(p) == 1 && p[0].Big == "":
-			return p[0].Lit, "", true
+			return p[0].Lit, "", false, true
 		case len(p) == 1:
-			return "", p[0].Big, true
+			return "", p[0].Big, p[0].Hex, true
 		case len(p) == 2 && p[0].Big == "" && p[1].Big != "":
-			return p[0].Lit, p[1].Big, true
+			return p[0].Lit, p[1].Big, p[1].Hex, true
 		}
-		return "", "", false
+		return "", "", false, false
 	}
-	la, ba, oka := shape(pa)
-	lb, bb, okb := shape(pb)
+	la, ba, ha, oka := shape(pa)
+	lb, bb, hb, okb := shape(pb)
 	if !oka || !okb {
 		return Bool{}, false
 	}
+	if ba != "" && bb != "" && ha != hb {
+		// a decimal and a hexadecimal rendering may or may not coincide ("10"): arbitrary verdict
+		m.stubsRun["over-approx: decimal vs hex rendering may coincide"]++
+		return m.ex.NondetBool("mixed_radix_collision"), true
+	}
+	isHex := ha || hb
 	allDigits := func(s string) bool {
 		for i := 0; i < len(s); i++ {
-			if s[i] < '0' || s[i] > '9' {
+			if (s[i] < '0' || s[i] > '9') && !(isHex && s[i] >= 'a' && s[i] <= 'f') {
 				return false
 			}
 		}
@@ -502,7 +508,7 @@ func (m *Machine) structEq(a, b Str) (Bool, bool) {
 			return CB(false), true
 		}
 		rest := long[len(short):]
-		if !allDigits(rest) || rest[0] == '0' {
+		if !allDigits(rest) || (rest[0] == '0' && !isHex) {
 			return CB(false), true // an integer rendering is digits only, without leading zero
 		}
 		// may coincide for suitable values (the exact digit relation is not modelled): arbitrary verdict
@@ -514,6 +520,29 @@ func (m *Machine) structEq(a, b Str) (Bool, bool) {
 	// literal vs literal+integer
 	if ba == "" {
 		la, lb, bb, ba = lb, la, ba, bb
+	}
+	if isHex {
+		// a = la + hex(bytes(ba)), b = literal lb: the rest must be an even number of lower-case hex digits
+		// without a leading zero byte
+		if !strings.HasPrefix(lb, la) {
+			return CB(false), true
+		}
+		rest := lb[len(la):]
+		if len(rest)%2 != 0 || strings.HasPrefix(rest, "00") {
+			return CB(false), true
+		}
+		v := new(big.Int)
+		if rest != "" {
+			for i := 0; i < len(rest); i++ {
+				if !(rest[i] >= '0' && rest[i] <= '9') && !(rest[i] >= 'a' && rest[i] <= 'f') {
+					return CB(false), true
+				}
+			}
+			if _, ok := v.SetString(rest, 16); !ok || v.BitLen() > bigW-2 {
+				return CB(false), true
+			}
+		}
+		return Bool{S: "(= " + ba + " " + Big{V: v}.Term() + ")"}, true
 	}
 	// now a = la+int(ba), b = literal lb
 	if !strings.HasPrefix(lb, la) {
